@@ -196,12 +196,12 @@ CHECKS["C10"] = dict(
     text="Theorems over the reals, exact because rounding is monotone and fixes the grid: RSI in [0,100], TR >= rounded high-low >= 0, "
          "ATR >= 0, EMA inside the range of its inputs, stored readings are fixed points of rounding; and about the engine's own "
          "_calculate_reading models, any store and index: Aroon up/down in [0,100] with oscillator = up - down, Donchian middle = mean "
-         "of its bounds and between them, Keltner and Bollinger band order, MACD histogram = MACD - signal, Supertrend direction/long/"
+         "of its bounds and between them, the Donchian channel enclosing the candle's own high and low, Keltner and Bollinger band order, MACD histogram = MACD - signal, Supertrend direction/long/"
          "short/trend, Stochastic oscillator value in [0,100] for inputs between the candle's low and high; TSI's ingredients: an EMA over "
          "a series dominated by another stays dominated at the seed, at every step and through rounding, and 100*s/a lies in [-100,100] when |s| <= a; ADX's ingredients: DX in [0,100], Wilder's step keeps [0,100]. " + ENGINE_TIE +
          "Falsifier: every relation of the property text on the implementation's output (also after recomputation); Counter is judged against its input on the same candle, "
          "also as a member registered through add_indicator after the member it counts.",
-    note="Stochastic k/d (averages of the oscillator), the assembly of ADX from DX (and the decay-weighted seed of its Wilder average) and of TSI from its two double-smoothed series, Donchian enclosure, the accumulation of rounding in the identities after the final rounding: "
+    note="Stochastic k/d (averages of the oscillator), the assembly of ADX from DX (and the decay-weighted seed of its Wilder average) and of TSI from its two double-smoothed series, the accumulation of rounding in the identities after the final rounding: "
          "correspondence + falsifier. Real-number axioms as for C04.",
     technique="Coq proof over R + vm_compute correspondence + relation falsifier", design="5/C10")
 CHECKS["C13"] = dict(
